@@ -31,6 +31,25 @@ def main():
         sh('rsync -a --exclude target --exclude .git /repo/ %s/' % scratch)
         def restore():
             sh('rsync -a --delete --exclude target --exclude .git /repo/ %s/' % scratch)
+        if '--seeds' in a:
+            sdir = os.path.join(VERIF, 'seeded')
+            for d in sorted(os.listdir(sdir)):
+                if not d.startswith('C') or (only and d not in only):
+                    continue
+                meta = json.load(open(os.path.join(sdir, d, 'meta.json')))
+                r0 = sh('cd %s && patch -p1 -s < %s' % (scratch, os.path.join(sdir, d, 'patch.diff')))
+                if r0.returncode != 0:
+                    res.append(('seed:' + d, 'STALE', r0.stdout[-300:])); restore(); continue
+                r = subprocess.run([os.path.join(VERIF, 'bin', 'check'), d[:3], '--root', scratch], env=env,
+                                   stdout=subprocess.PIPE, stderr=subprocess.STDOUT, text=True)
+                got = r.returncode == 1
+                if r.returncode == 2:
+                    res.append(('seed:' + d, 'BROKEN', r.stdout[-400:]))
+                elif got == bool(meta.get('detected')):
+                    res.append(('seed:' + d, 'ok-caught' if got else 'ok-known-miss', ''))
+                else:
+                    res.append(('seed:' + d, 'REGRESSION' if meta.get('detected') else 'NEWLY-CAUGHT (update meta.json)', r.stdout[-400:]))
+                restore()
         if refac:
             rdir = os.path.join(HERE, 'refactors')
             names = sorted(f[:-5] for f in os.listdir(rdir) if f.endswith('.diff'))
@@ -58,7 +77,7 @@ def main():
                     res.append(('refactor:' + nm, 'ok-silent', ''))
                 restore()
         for m in MUTANTS:
-            if refac and not only and not prop: break
+            if (refac or '--seeds' in a) and not only and not prop: break
             if only and m['id'] not in only: continue
             if prop and m['prop'] not in prop: continue
             if m.get('pre'):
@@ -100,7 +119,7 @@ def main():
                 if m.get('pre'): restore()
         # unmodified copy must be silent for every property touched
         props = sorted({m['prop'] for m in MUTANTS if (not prop or m['prop'] in prop)})
-        if not only and not (refac and not prop):
+        if not only and not ((refac or '--seeds' in a) and not prop):
             for p in props:
                 r = subprocess.run([os.path.join(VERIF, 'bin', 'check'), p, '--root', scratch], env=env,
                                    stdout=subprocess.PIPE, stderr=subprocess.STDOUT, text=True)
